@@ -68,6 +68,7 @@ type c12Conn struct {
 	wFailed       bool
 	cw            bool // CloseWrite was called (through a wrapper that offers it)
 	writeAfterCW  int
+	wAfterClose   int // Write calls that arrived after Close
 
 	closes  atomic.Int64
 	reads   atomic.Int64
@@ -175,6 +176,7 @@ func (c *c12Conn) Write(p []byte) (int, error) {
 	c.mu.Lock()
 	defer c.mu.Unlock()
 	if c.closed {
+		c.wAfterClose++
 		return 0, net.ErrClosed
 	}
 	c.writes++
@@ -224,6 +226,12 @@ func (c *c12Conn) OutBytes() []byte {
 	c.mu.Lock()
 	defer c.mu.Unlock()
 	return append([]byte(nil), c.out...)
+}
+
+func (c *c12Conn) WritesAfterClose() int {
+	c.mu.Lock()
+	defer c.mu.Unlock()
+	return c.wAfterClose
 }
 
 func (c *c12Conn) CWCalled() bool {
